@@ -726,6 +726,15 @@ func buildRuleUnitX(pkg, goName, svc string, cat []ruleCase, perRPC bool) *ruleU
 	}
 	f.Messages = append(f.Messages, all)
 	f.Services = []*spec.Service{{Name: svc, Methods: []*spec.Method{{Name: "Check", In: "." + pkg + ".AllRules", Out: "." + pkg + ".AllRules", HTTP: &spec.HTTP{Path: "/check", Verb: 2}}}}}
+	// a message with a required field is ALSO the body of a route that binds that field to a path variable
+	// (PUT /things/{val} next to POST /check): the component schema is shared by both uses and must keep
+	// stating the rule
+	for i, rc := range cat {
+		if rc.Required && rc.Card == spec.Singular && (rc.Kind == spec.String || rc.Kind == spec.Int32) {
+			mn := fmt.Sprintf(".%s.R%03d", pkg, i)
+			f.Services[0].Methods = append(f.Services[0].Methods, &spec.Method{Name: fmt.Sprintf("Put%03d", i), In: mn, Out: mn, HTTP: &spec.HTTP{Path: fmt.Sprintf("/things/%03d/{val}", i), Verb: 3}})
+		}
+	}
 	if perRPC {
 		for i := range cat {
 			mn := fmt.Sprintf(".%s.R%03d", pkg, i)
